@@ -17,5 +17,9 @@ func main() {
 		os.Stdout.WriteString(probeStrace() + "\n")
 		return
 	}
+	if len(os.Args) > 1 && os.Args[1] == "calibrate" { // measure the buffer size of WriteFileWithMode
+		os.Stdout.WriteString(calibrate() + "\n")
+		return
+	}
 	hx.Main(map[string]hx.Area{"api": &apiArea{}, "wf": wfArea{}, "trace": traceArea{}})
 }
